@@ -13,7 +13,7 @@ gen_case(rng, size, ...) -> dict
 The performance is "note for note": every onset group of the score gets a time T_i with T_{i+1} - T_i > 0 (three
 tempo modes), every note of the group an onset T_i + asynchrony with |asynchrony| <= 0.3 * min(neighbouring IOIs),
 so that the mean of any non-empty subset of a group is strictly increasing with the score onset.  Durations are
->= 0.08 s (above the codec's documented floor of 60/200*0.25 = 0.075 s), velocities 1..127.
+>= 0.005 s (the codec used to raise every duration below 60/200*0.25 = 0.075 s to that value: repaired), velocities 1..127.
 """
 import math
 from fractions import Fraction
@@ -23,7 +23,7 @@ from workloads import gen_score
 NORMALIZATIONS = ["beat_period", "beat_period_log", "beat_period_ratio", "beat_period_ratio_log", "beat_period_standardized"]
 METHODS = ["average", "derivative"]
 MIN_IOI = 0.006
-MIN_DUR = 0.08
+MIN_DUR = 0.005
 FEATURES = ["chords", "multivoice", "graces", "pickup", "ties", "tuplets", "rests", "ts_changes", "multistaff"]
 
 
